@@ -173,6 +173,26 @@ func handleFaults(toks []string) (string, bool) {
 			var rerr error
 			ks := toks[1]
 			transit := false
+			if ks == "w" {
+				// the document in a regular file, opened WRITE-ONLY: an *os.File whose every Read fails (EBADF)
+				f, err := os.CreateTemp("", "gtwo")
+				if err != nil {
+					panic(err)
+				}
+				f.Write(data)
+				f.Close()
+				wo, err := os.OpenFile(f.Name(), os.O_WRONLY, 0)
+				if err != nil {
+					panic(err)
+				}
+				defer func() { wo.Close(); os.Remove(f.Name()) }()
+				var w bytes.Buffer
+				err = gtree.OutputFromMarkdown(&w, wo, opts...)
+				if err != nil {
+					return "err:reader " + hx(w.String()), true
+				}
+				return "ok " + hx(w.String()), true
+			}
 			if strings.HasSuffix(ks, "c") {
 				rerr = errReaderCanceled
 				ks = ks[:len(ks)-1]
